@@ -74,7 +74,9 @@ class Resolver:
             for d, _, fn in os.walk(os.path.join(root, 'src')):
                 for f in fn:
                     if f.endswith('.rs'):
-                        for m in re.finditer(r'\btype\s+(\w+)\s*=\s*(\w+)\s*;', open(os.path.join(d, f)).read()): self.alias[m.group(1)] = m.group(2)
+                        src_ = open(os.path.join(d, f)).read()
+                        for m in re.finditer(r'\btype\s+(\w+)\s*=\s*(\w+)\s*;', src_): self.alias[m.group(1)] = m.group(2)
+                        for m in re.finditer(r'\buse\s+(?:\w+::)*(\w+)\s+as\s+(\w+)\s*;', src_): self.alias.setdefault(m.group(2), m.group(1))
         self._index()
 
     def _lines(self, prefix, path):
@@ -93,6 +95,7 @@ class Resolver:
             k = l
             while '{' not in text and k < len(lines) and k < l + 12: text += ' ' + lines[k]; k += 1
             h = parse_impl_header(text)
+            if h and h[0].startswith('$'): return ('?', '?')      # impl inside macro_rules! (`impl LanguageChildren for $id`): self type from the signature
             return (self._unalias(h[0]), h[1], 'written', text) if h else None
         m = re.match(r'^(\w+)', text)
         if m and not text.startswith('define_language'):
@@ -125,7 +128,7 @@ class Resolver:
             if m:
                 tail = name[m.end():]
                 if not tail.startswith('::') or '::{closure' in tail or '::{' in tail: continue
-                method = tail[2:]
+                method = tail[2:].split('§')[0]
                 if '::' in method: continue
                 key = (prefix, m.group(0))
                 if key not in self.impl_info:
@@ -157,7 +160,7 @@ class Resolver:
     # ---- queries
     def method(self, ty, method, trait=None):
         """fn name of ty::method (optionally of a given trait); None when unknown, raises when ambiguous"""
-        cands = self.by_tm.get((ty, method), [])
+        cands = self.by_tm.get((ty, method), []) or self.by_tm.get((self._unalias(ty), method), [])
         if trait is not None:
             c2 = [f for t, f in cands if t == trait]
             if not c2: c2 = [f for t, f in cands if t == '?']
